@@ -51,13 +51,68 @@ class Prop(PropBase):
         # error throttle) - noted in DESIGN.md, not a C10 matter.  TSan runs with several feeders therefore stay below the overflow limit.
         tsan_runs = [r for r in runs if r[2] * r[1] <= 1300 and (r[1] == 1 or r[1] * r[2] + r[3] <= 1000)][: (8 if tier == 'quick' else 60)]
         out.append(('tsan', '\n'.join(scn(n + '_t', p, k, pre, slow, seed, 0) for (n, p, k, pre, slow, seed) in tsan_runs) + '\n'))
+        # the receiving side proper: bursts of tagged datagrams on BOTH sockets (distinct MSOP / DIFOP ports) queued before the
+        # receiver starts, so that one wake-up finds both sockets readable; every datagram must reach the decoder exactly once, intact,
+        # in the order of its own socket (the order between the two sockets is not defined)
+        import os
+        base = 20000 + (os.getpid() % 30) * 100
+        sb = []
+        for k in range(4 if tier == 'quick' else 24):
+            msop, difop = base + 2 * k, base + 2 * k + 1
+            lines = [f'S c10_sockburst_{k}', pktgen.Cfg(wait=0, dense=0, pktcb=1, lclock=1).line(0, L['RS16']), f'N 0 4 {msop} {difop} 0 0']
+            n = rng.choice([2, 6, 40, 120])
+            for j in range(n):
+                dif = (j % 2 == 1) if k % 2 == 0 else (rng.random() < 0.4)
+                body = (b'\xa5\xff' if dif else b'\x55\xaa') + j.to_bytes(4, 'big') + bytes((j * 13 + q) & 0xff for q in range(rng.choice([20, 58, 300])))
+                lines.append(f'U 0 {difop if dif else msop} {body.hex()}')
+            lines += ['GO 0', 'E']
+            sb.append('\n'.join(lines))
+        out.append(('sockburst', '\n'.join(sb) + '\n'))
         return out
+
+    def judge_sockburst(self, inp, impl_path, impl_log, violations, stats):
+        sent = {}
+        cur = None
+        for line in open(inp):
+            t = line.split()
+            if t and t[0] == 'S':
+                cur = t[1]; sent[cur] = {'text': [line.rstrip('\n')], 'm': [], 'd': []}
+            elif cur:
+                sent[cur]['text'].append(line.rstrip('\n'))
+                if t and t[0] == 'U':
+                    sent[cur]['d' if t[3].startswith('a5ff') else 'm'].append(t[3])
+        for name, lines in CMP.split_scenarios(impl_path):
+            if name is None or name not in sent:
+                continue
+            stats['evaluations'] += 1
+            payload = '\n'.join(sent[name]['text'])
+            crashed = [l for l in lines if l.startswith('crash') or l.startswith('initfail')]
+            if crashed:
+                violations.append(('crash', f'{name}: {crashed[0]} :: ' + impl_log[-800:], payload)); continue
+            got = {'m': [], 'd': []}
+            for l in lines:
+                t = l.split()
+                if t[0] == 'pkt':
+                    got['d' if t[3] == '1' else 'm'].append(t[7] if len(t) > 7 else '')
+            ok = True
+            for kind, what in (('m', 'MSOP'), ('d', 'DIFOP')):
+                if got[kind] != sent[name][kind]:
+                    ok = False
+                    i = next((i for i, (a, b) in enumerate(zip(got[kind], sent[name][kind])) if a != b), min(len(got[kind]), len(sent[name][kind])))
+                    violations.append(('socket-delivery', f'{name}: {len(sent[name][kind])} datagrams sent to the {what} port, {len(got[kind])} reached the decoder as {what}; first difference at position {i}: '
+                                       f'got {(got[kind][i][:24] if i < len(got[kind]) else "<nothing>")} expected {(sent[name][kind][i][:24] if i < len(sent[name][kind]) else "<nothing>")} '
+                                       '(every datagram exactly once, intact, in the order of its socket)', payload))
+            if ok:
+                stats['classes']['both-sockets-burst'] = stats['classes'].get('both-sockets-burst', 0) + 1
+                stats['distinct_nontrivial'] += 1
 
     def judge(self, bname, inp, impl_path, model_path, impl_log, violations, broken, stats):
         text = open(inp).read()
         def scn_of(name):
             i = text.find(f'S {name}\n'); j = text.find('\nE', i)
             return text[i:j + 2]
+        if bname == 'sockburst' or (bname == 'replay' and '\nN 0 4 ' in text):
+            return self.judge_sockburst(inp, impl_path, impl_log, violations, stats)
         if bname == 'trace' or (bname == 'replay' and re.search(r'^Q( \S+){6} 1$', text, re.M)):
             if not hasattr(self, 'meta'):
                 self.meta = {}
